@@ -215,6 +215,36 @@ def alt_for(tx, ev):
     return None if i is None else ex[:i] + [ev['up'], ev['down']] + ex[i + 1:]
 
 
+def event_junctions(ev):
+    """Every splice junction (exon end, next exon start; gene coordinates) of the two forms of an event."""
+    k = ev['kind']
+    if k == 'SE':
+        U, E, D = ev['up'], ev['exon'], ev['down']
+        return [(U[1], E[0]), (E[1], D[0]), (U[1], D[0])]
+    if k == 'A5SS':
+        return [(ev['long'][1], ev['flank'][0]), (ev['short'][1], ev['flank'][0])]
+    if k == 'A3SS':
+        return [(ev['flank'][1], ev['long'][0]), (ev['flank'][1], ev['short'][0])]
+    if k == 'MXE':
+        U, D = ev['up'], ev['down']
+        return [(U[1], ev['e1'][0]), (ev['e1'][1], D[0]), (U[1], ev['e2'][0]), (ev['e2'][1], D[0])]
+    return [(ev['up'][1], ev['down'][0])]
+
+
+def junction_targets(tx, ev):
+    """A transcript with INTERJACENT exons (further exons of this isoform between two exons an event junction joins): every
+    junction of the event whose two ends are exon boundaries of the transcript, applied to it (everything in between is
+    spliced out), is a form the event denotes for this transcript."""
+    ex = list(tx.exons)
+    ends = {e: i for i, (s, e) in enumerate(ex)}
+    starts = {s: i for i, (s, e) in enumerate(ex)}
+    out = []
+    for a, b in event_junctions(ev):
+        if a in ends and b in starts and starts[b] > ends[a] + 1:
+            out.append(ex[:ends[a] + 1] + ex[starts[b]:])
+    return out
+
+
 def row_of(ev, idx, ijc, sjc):
     gene = ev['gene']
     st = '+' if gene.strand == 1 else '-'
@@ -252,6 +282,31 @@ def run_case(spec):
     rng = random.Random(spec['seed'])
     ref = refgen.make_reference(rng, n_genes=rng.randint(1, 3), isoforms=(1, 2), min_exons=2, max_exons=5, exon_len=(12, 70),
                                 intron_len=(20, 70), sec_p=0.0)
+    # isoforms with INTERJACENT exons: a copy of a transcript with 1-2 further small exons inside one intron, so that a junction
+    # of an event on the plain transcript spans several exons of the sibling
+    if spec.get('interjacent', True):
+        from harness.model.seqmodel import Tx
+        for gene in ref.genes:
+            T = gene.txs[0]
+            if len(T.exons) < 2 or rng.random() > 0.4:
+                continue
+            i = rng.randrange(len(T.exons) - 1)
+            lo, hi = T.exons[i][1], T.exons[i + 1][0]
+            extra = []
+            cur = lo + 3
+            for _ in range(rng.randint(1, 2)):
+                if hi - cur < 9:
+                    break
+                s_ = rng.randint(cur, hi - 6)
+                e_ = rng.randint(s_ + 3, min(hi - 3, s_ + 12))
+                if any(a < e_ + 3 and s_ - 3 < b for t in gene.txs for a, b in t.exons):
+                    break
+                extra.append((s_, e_))
+                cur = e_ + 3
+            if extra:
+                ex2 = sorted(T.exons + extra)
+                if all(t.exons != ex2 for t in gene.txs):
+                    gene.txs.append(Tx(T.id[:-5] + f'{len(gene.txs) + 30:03d}.1', gene, ex2, False))
     wd = drivers.case_dir('c16-')
     viol = []
     counters = {'cases': 1}
@@ -319,6 +374,7 @@ def run_case(spec):
             tx = ref.tx_by_id(tid)
             gs = ref.gene_seq(tx.gene)
             targets = set()
+            inter_targets = set()
             constrained = False
             for ev in events:
                 if ev['gene'] is not tx.gene:
@@ -328,6 +384,13 @@ def run_case(spec):
                     constrained = True
                     if ev['rowkey'] in passing_keys:
                         targets.add(seq_of(gs, alt))
+                jt = junction_targets(tx, ev)
+                if jt:
+                    counters['interjacent_targets'] = counters.get('interjacent_targets', 0) + len(jt)
+                    if ev['rowkey'] in passing_keys:
+                        for alt2 in jt:
+                            targets.add(seq_of(gs, alt2))
+                            inter_targets.add(seq_of(gs, alt2))
             for r in rs:
                 out = apply_record(gs, tx, r)
                 counters['applied'] = counters.get('applied', 0) + 1
@@ -338,6 +401,37 @@ def run_case(spec):
                     counters['unconstrained_records'] = counters.get('unconstrained_records', 0) + 1
                     continue
                 counters['constrained_records'] = counters.get('constrained_records', 0) + 1
+                if out in inter_targets:
+                    counters['interjacent_records_confirmed'] = counters.get('interjacent_records_confirmed', 0) + 1
+                if out not in targets and r[4] == '<DEL>':
+                    # a deletion that realises only HALF of an event junction spanning interjacent exons of this isoform: it starts
+                    # (or ends) at the junction's splice site but leaves interjacent exons in place, and the junction it does
+                    # create belongs to no passing event
+                    ds_, de_ = int(r[5]['START']) - 1, int(r[5]['END'])
+                    kept = []
+                    for a_, b_ in tx.exons:
+                        if b_ <= ds_ or a_ >= de_:
+                            kept.append((a_, b_))
+                        else:
+                            if a_ < ds_:
+                                kept.append((a_, ds_))
+                            if b_ > de_:
+                                kept.append((de_, b_))
+                    before_ = [x for x in kept if x[1] <= ds_]
+                    after_ = [x for x in kept if x[0] >= de_]
+                    if before_ and after_:
+                        made = (before_[-1][1], after_[0][0])
+                        jpass = {j for e in events if e['gene'] is tx.gene and e['rowkey'] in passing_keys for j in event_junctions(e)}
+                        ends_ = {e_ for _, e_ in tx.exons}
+                        starts_ = {s_ for s_, _ in tx.exons}
+                        if made not in jpass:
+                            half = [j for j in jpass if j[0] in ends_ and j[1] in starts_ and ((made[0] == j[0]) != (made[1] == j[1]))
+                                    and any(j[0] < x[0] and x[1] < j[1] for x in tx.exons)]
+                            if half:
+                                bad('interjacent-deletion-wrong-extent',
+                                    f'{r[2]} <DEL> {ds_}-{de_} on {tid} (strand {tx.gene.strand}, exons {tx.exons}) creates junction {made}; '
+                                    f'the event junction {half[0]} spans interjacent exons of this isoform and is only half realised')
+                                continue
                 if out not in targets:
                     same = [e for e in events if e['gene'] is tx.gene and alt_for(tx, e) is not None]
                     # a record produced by an event that matches this transcript only partially is not constrained
